@@ -531,6 +531,41 @@ fn long_runs_inner(w: &mut Worker) {
     }
 }
 
+/// Pre-process lines (`!print`) inside blocks: they run nothing, wherever they stand - directly behind the
+/// line that opens the block, between its lines, in front of its else / end - and the blocks run as
+/// without them. One at a time at every place of seven block shapes, and at all places at once.
+fn preprocess_lines_in_blocks(w: &mut Worker) {
+    let shapes: [(&str, &str); 7] = [
+        ("if", "if true\n@x = set 1\n@end"),
+        ("else", "if false\n@x = set 0\n@else\n@x = set 1\n@end"),
+        ("elseif", "if false\n@x = set 0\n@elseif true\n@x = set 1\n@else\n@x = set 2\n@end"),
+        ("while", "i = set 0\nwhile less_than ${i} 2\n@i = calc ${i} + 1\n@end\nx = set 1"),
+        ("for", "a = range 0 2\nn = set 0\nfor k in ${a}\n@n = calc ${n} + 1\n@end\nrelease ${a}\nx = set 1"),
+        ("fn", "fn f\n@r = set 1\n@return ${r}\n@end\nx = f"),
+        ("nested", "if true\n@while false\n@y = set 0\n@end\n@if true\n@x = set 1\n@end\n@end"),
+    ];
+    for (kind, shape) in shapes {
+        let places = shape.matches('@').count();
+        for directive in ["!print -", "!print", "!print a b c"] {
+            for at in 0..=places {
+                // `at == places`: every place at once
+                let mut k = 0usize;
+                let mut text = String::new();
+                for part in shape.split('@') {
+                    if k > 0 && (at == places || at == k - 1) {
+                        text.push_str(directive);
+                        text.push('\n');
+                    }
+                    text.push_str(part);
+                    k += 1;
+                }
+                text.push_str("\nafter = set reached");
+                crate::util::scale_case(w, &format!("preprocess-line-in-block {} {:?} at {}", kind, directive, at), &text, &[("x", Some("1".into())), ("after", Some("reached".into()))]);
+            }
+        }
+    }
+}
+
 /// Blocks whose bodies call library commands that are themselves scripts with blocks (concat,
 /// join_path, array_contains, array_join, map_contains_value, set_from_array, array_concat): the
 /// called script runs on line numbers of its own, inside the same run. The block is moved down the
@@ -585,6 +620,10 @@ fn library_calls_in_bodies(w: &mut Worker) {
 
 pub fn worker(w: &mut Worker) {
     let tier = w.tier;
+    // the small fixed cases first, under a short limit: a block that does not come back shows within
+    // seconds, before the long-running families use up the time
+    w.set_case_limit_ms(4_000);
+    preprocess_lines_in_blocks(w);
     w.set_case_limit_ms(20_000);
     long_runs(w);
     library_calls_in_bodies(w);
@@ -717,7 +756,7 @@ pub fn crash_sig(_case: &Value, kind: &str) -> String {
     kind.to_string()
 }
 
-pub const RULE: &str = "programs: every well-nested forest of blocks {if with 0-2 elseif and optional else, while, for-in} with 1..N blocks and depth <= 3, an emit before / inside / after every block, leaf bodies with and without an emit, condition forms {value ${c}, ${c} and ${d}, ${c} or ${d} and ${e}, command `ans`, negated command `not ans`} uniform and rotating; single-block programs with the full product of every spelling of every keyword (alias, block-specific end, generic end, full command name), larger ones with rotated spellings so that every keyword occurrence meets each of its spellings; for every program every assignment of truth values to condition evaluations and of lengths {0,1,2} to for-in arrays with a bounded number of deviations from the default (false / empty) within a horizon of choice points. Plus long-running loop nests (while / for-in, single, nested two and three deep, two inner loops in sequence, an inner loop inside a branch with and without branches after it, a small if-block (no else / else taken / last elseif taken) in every iteration of a long loop that sits in a branch of an if / if-else / elseif chain whose later branches must not run; iteration counts {0,1,40,70,300} quick, up to 5000 thorough, plus a 150000-iteration (thorough 600000) loop inside a loop and inside an if with an else; generic and block-specific end) whose counters and exit trace are compared with the same nest walked in Rust. Every execution on the real runner is compared with a tree-walking interpreter of the same AST run on the same answers: emit trace with loop-variable values and final variables (loop variables after their loop and handle names masked). evaluations = rendered programs; transitions = executions; states = distinct (trace length, deviations) classes Library calls in bodies: while / for / if / else / elseif / function / three nested blocks around each of 9 calls of library commands that are scripts with blocks of their own, the block moved down the script by 0..20 (thorough 60) lines so that its end lines meet every line index, closed by `end` and by the specific end command: iteration counts, branch taken, result of the call The library calls include three that end with an error (array_join / set_from_array / array_concat on something that is no array) Nests of three and four loops inside each other (every combination of while and for/in) whose innermost loop makes 7000 (thorough 20000, 70000) passes in every round of the loops around it, and the same with the long loop outermost.";
+pub const RULE: &str = "programs: every well-nested forest of blocks {if with 0-2 elseif and optional else, while, for-in} with 1..N blocks and depth <= 3, an emit before / inside / after every block, leaf bodies with and without an emit, condition forms {value ${c}, ${c} and ${d}, ${c} or ${d} and ${e}, command `ans`, negated command `not ans`} uniform and rotating; single-block programs with the full product of every spelling of every keyword (alias, block-specific end, generic end, full command name), larger ones with rotated spellings so that every keyword occurrence meets each of its spellings; for every program every assignment of truth values to condition evaluations and of lengths {0,1,2} to for-in arrays with a bounded number of deviations from the default (false / empty) within a horizon of choice points. Plus long-running loop nests (while / for-in, single, nested two and three deep, two inner loops in sequence, an inner loop inside a branch with and without branches after it, a small if-block (no else / else taken / last elseif taken) in every iteration of a long loop that sits in a branch of an if / if-else / elseif chain whose later branches must not run; iteration counts {0,1,40,70,300} quick, up to 5000 thorough, plus a 150000-iteration (thorough 600000) loop inside a loop and inside an if with an else; generic and block-specific end) whose counters and exit trace are compared with the same nest walked in Rust. Every execution on the real runner is compared with a tree-walking interpreter of the same AST run on the same answers: emit trace with loop-variable values and final variables (loop variables after their loop and handle names masked). evaluations = rendered programs; transitions = executions; states = distinct (trace length, deviations) classes Library calls in bodies: while / for / if / else / elseif / function / three nested blocks around each of 9 calls of library commands that are scripts with blocks of their own, the block moved down the script by 0..20 (thorough 60) lines so that its end lines meet every line index, closed by `end` and by the specific end command: iteration counts, branch taken, result of the call The library calls include three that end with an error (array_join / set_from_array / array_concat on something that is no array) Nests of three and four loops inside each other (every combination of while and for/in) whose innermost loop makes 7000 (thorough 20000, 70000) passes in every round of the loops around it, and the same with the long loop outermost. Pre-process lines in blocks: a `!print` line (3 spellings) at every place inside seven block shapes (if, else, elseif, while, for, fn, nested), one at a time and at all places at once: the blocks run as without it.";
 pub const ASSUMPTIONS: &[&str] = &["ill-nested programs, arrays modified while iterated and jumps into blocks are outside the property", "value-form conditions of an if/elseif chain are computed in front of the block"];
 pub const EXHAUSTIVE: bool = true;
 pub const WALL_CAP_S: (u64, u64) = (55, 1500);
